@@ -250,6 +250,11 @@ class World:
                 for i, s in enumerate(t.get('subs', [{}]))]
         info['subs'] = subs
         extra = dict(t.get('extra_args', {}))
+        if t.get('extra_ref'):
+            # the caller re-uses ONE dict object for several calls
+            shared = self.__dict__.setdefault('shared_extra', {})
+            extra = shared.setdefault(t['extra_ref'], extra)
+        upd = t.get('extra_update')
         if kind == 'upload':
             self.svc.register_source(key, data)
             p0 = t.get('offset', 0)
@@ -263,8 +268,14 @@ class World:
                 fobj = SeekableSource(self, x, b'\xfe' * p0 + data, p0)
             else:
                 fobj = NonSeekableSource(self, x, data, t.get('src_reads'))
-            info['call'] = lambda: self.manager.upload(
-                fobj, BUCKET, key, extra_args=extra or None, subscribers=subs)
+            def _call_upload():
+                if upd:
+                    extra.update(upd)
+                return self.manager.upload(
+                    fobj, BUCKET, key,
+                    extra_args=extra if (extra or t.get('extra_ref')) else None,
+                    subscribers=subs)
+            info['call'] = _call_upload
         elif kind == 'download':
             self.svc.put(BUCKET, key, data)
             dst = t.get('dst', 'path')
